@@ -472,7 +472,8 @@ func (c *Ctx) realSP(cfg SPCfg) *saml.ServiceProvider {
 
 // the zone of the host the SP runs on says nothing about a message: instants written without a zone are UTC (saml-core 1.3.3),
 // so every case runs under one of several host zones, in rotation, and must come out the same
-var hostZones = []*time.Location{time.UTC, time.FixedZone("verif-west", -5*3600), time.UTC, time.FixedZone("verif-east", 5*3600+1800)}
+// (five entries: a period coprime to the six lexical styles, so every style meets every zone)
+var hostZones = []*time.Location{time.UTC, time.FixedZone("verif-west", -5*3600), time.UTC, time.FixedZone("verif-east", 5*3600+1800), time.FixedZone("verif-west2", -11*3600)}
 var hostZoneN int
 
 func rotateHostZone() {
